@@ -223,6 +223,23 @@ CLAIMED = {
              "kernels cannot run here; AVX-512 kernels run because this host has avx512f/dq/vl. FFT leaves and drivers are covered "
              "by C06, VMP prepare/apply ref vs avx by C02 (both masks).",
         technique="TLA+ decision-table model checked with TLC + TLC trace validation of observed selections and of every kernel variant against its definition"),
+    "C11": dict(
+        category="exploration",
+        text="Extents.tla holds the *_tmp_bytes / bytes_of_* formulas and write sets; the code-shaped machines carry a ghost for any "
+             "access outside the declared extents and a scratch high-water mark, and TLC checks them on exhaustive boxes that "
+             "include every zero size (Vmp, Normalize, LimbLoops, RingMaps). On the real library: the values reported by every "
+             "*_tmp_bytes / bytes_of_* function over a box of shapes and both module types are validated by TLC against Extents.tla; "
+             "the allocator calls inside new_*/delete_* scopes of every object family (static library, malloc/calloc/aligned_alloc/"
+             "realloc/free diverted at link time) are validated by the ledger specification AllocLedgerTrace.tla (frees hit live "
+             "blocks only, every scope ends empty); TLC-generated cases and programs are replayed with exact-size heap buffers, "
+             "exact scratch, canaries, misalignments 8/16/24 and two pre-fills (identical results demanded); the same replays run "
+             "under an AddressSanitizer build with exact-size malloc blocks so that any read or write outside a declared extent "
+             "aborts the call and is reported with the sanitizer's stack.",
+        design_ref="DESIGN.md section 4 C11",
+        note="Trusted: TLC, AddressSanitizer (gcc 12) as observer, the 0x7F canary pattern. Address sanitizer only: UBSan also flags "
+             "the signed shifts of the digit extraction, which are outside this property. A non-influential out-of-extent read "
+             "inside the four hand-written assembly kernels is invisible.",
+        technique="TLA+ extent/ledger specifications + TLC trace validation of reported sizes and allocator events + exact-size replay of TLC-generated cases under canaries and AddressSanitizer"),
 }
 
 NOT_YET = "check not built yet in this session (planned, see DESIGN.md section 8)"
